@@ -32,6 +32,7 @@ type c07Variant struct {
 	Prelude     [][]string        `json:"prelude,omitempty"` // earlier invocations in the same process
 	PreludeWd   []string          `json:"prelude_wd,omitempty"` // earlier invocation i made through sdk.RunThriftgoAsSDK with this working directory
 	Clock       int64             `json:"clock_offset,omitempty"` // the run starts this many nanoseconds after the baseline's wall-clock instant, with another pid
+	Block       string            `json:"block,omitempty"`      // a regular file where an earlier invocation must create a directory; removed before the observed invocation
 	SdkWd       string            `json:"sdk_wd,omitempty"`     // the observed invocation is sdk.RunThriftgoAsSDK(SdkWd, ...); its baseline is the same call with nothing before it
 }
 
@@ -87,7 +88,18 @@ func (p *c07Pair) spec(v *c07Variant) *simrt.Spec {
 		}
 	}
 	cc.Extra = p.Extra
+	if v.Block != "" && len(v.Prelude) > 0 {
+		cc.PreludeRemove = []string{v.Block}
+	}
 	sp := cc.spec(1)
+	if v.Block != "" && len(v.Prelude) > 0 {
+		files := map[string][]byte{}
+		for k, b := range sp.Files {
+			files[k] = b
+		}
+		files[v.Block] = []byte("a regular file in the way\n")
+		sp.Files = files
+	}
 	sp.MapMode = v.MapMode
 	sp.MapSites = v.MapSites
 	sp.Strategy = v.Strategy
@@ -380,6 +392,9 @@ func c07Check(a *artefacts, tier string, seed uint64, replay string) int {
 		if len(vars) > K-1 {
 			vars = vars[:K-1]
 		}
+		if fv := c07FailedEarlier(pr, pair, bv); fv != nil && i%3 == 1 {
+			vars = append(vars, fv)
+		}
 		nontrivial := false
 		foundHere := map[string]bool{}
 		for _, v := range vars {
@@ -664,7 +679,8 @@ func c07Isolate(a *artefacts, f *c07Found) []*c07Found {
 			v = w
 		}
 	}
-	try(func(w *c07Variant) { w.Prelude, w.PreludeWd = nil, nil })
+	try(func(w *c07Variant) { w.Prelude, w.PreludeWd, w.Block = nil, nil, "" })
+	try(func(w *c07Variant) { w.Block = "" })
 	try(func(w *c07Variant) { w.PreludeWd = nil })
 	try(func(w *c07Variant) { w.Stale = false })
 	try(func(w *c07Variant) { w.Clock = 0 })
@@ -679,6 +695,9 @@ func c07Isolate(a *artefacts, f *c07Found) []*c07Found {
 		}
 		if v.SdkWd != "" && len(v.PreludeWd) > 0 {
 			d = append(d, "sdk-working-directories")
+		}
+		if v.Block != "" && len(v.Prelude) > 0 {
+			d = append(d, "failed-earlier-run")
 		}
 		if v.Stale {
 			d = append(d, "stale-output")
@@ -1046,4 +1065,34 @@ func hash64s(s string) uint64 {
 		h *= 1099511628211
 	}
 	return h
+}
+
+// c07FailedEarlier: an earlier invocation in the same process wrote the same program with other
+// options into the same output directory and failed half way (a regular file sat where it had to
+// create a directory); the obstacle is gone when the observed invocation starts.  Whatever the
+// failed run left behind - files, or work still going on - must not show in the observed run's output.
+func c07FailedEarlier(r *simrt.Rand, p *c07Pair, bv *c07View) *c07Variant {
+	var dirs []string
+	for k := range bv.Files {
+		if strings.HasPrefix(k, "$OUT/") {
+			if d := filepath.Dir(strings.TrimPrefix(k, "$OUT/")); d != "." {
+				dirs = append(dirs, d)
+			}
+		}
+	}
+	if len(dirs) == 0 {
+		return nil
+	}
+	sort.Strings(dirs)
+	block := "/work/out/" + dirs[r.Intn(len(dirs))]
+	other := []string{"gen_setter", "reorder_fields", "nil_safe", "gen_deep_equal=false", "json_enum_as_text", "keep_unknown_fields"}[r.Intn(6)]
+	cfg := config{Backend: p.Cfg.Backend, Opts: append(append([]string{}, p.Cfg.Opts...), other), Rec: p.Cfg.Rec}
+	inv := []string{"thriftgo", "-g", cfg.gArg()}
+	if cfg.Rec {
+		inv = append(inv, "-r")
+	}
+	inv = append(inv, p.Extra...)
+	inv = append(inv, "-o", "/work/out", p.Main)
+	return &c07Variant{Name: "after-a-failed-run-into-the-same-directory", MapMode: "sorted", Strategy: "random", SchedSeed: r.Uint64(), PoolSeed: r.Uint64(),
+		Parallelism: 2 + r.Intn(15), Prelude: [][]string{inv}, Block: block}
 }
